@@ -304,6 +304,11 @@ theorem proj_slice (P : TagSet) (a : Int) (b : OptInt) (X : RS) :
   simp only [proj]
   rw [slice_map a b _ X.cols]
 
+theorem proj_chain (P : TagSet) (X Y : RS) :
+    rcols X = rcols Y → proj P (chain X Y) = chain (proj P X) (proj P Y) := by
+  intro _
+  simp only [proj, chain, List.map_append]
+
 theorem filter_commute (p q : Pred) (X : RS) :
     filter q (filter p X) = filter p (filter q X) := by
   simp only [filter, filterF]
@@ -345,6 +350,14 @@ theorem tcat_fvts (a b c : Terms) : tcat a b c → fvts c = fvts a ∪ fvts b :=
 
 theorem dedup_dedup (X : RS) : dedup (dedup X) = dedup X := by
   simp only [dedup, dedupRows_idem]
+
+theorem dedup_slice_dedup (a : Int) (b : OptInt) (X : RS) :
+    wf a b → dedup (slice a b (dedup X)) = slice a b (dedup X) := by
+  intro _
+  apply RS.ext
+  · rfl
+  · simp only [dedup]
+    exact dedupRows_of_nodup ((nodup_dedupRows X.rows).sublist (slice_rows_sublist a b ⟨X.cols, dedupRows X.rows⟩))
 
 theorem dedup_filter (p : Pred) (X : RS) :
     fv p ⊆ rcols X → dedup (filter p X) = filter p (dedup X) := by
@@ -474,6 +487,78 @@ theorem join_proj_l (p : Pred) (K P : TagSet) (X F : RS) :
   simp only [proj, join, rcols, fv, noshadow] at *
   have hcx : ∀ u, u ∈ X.cols → u ∈ F.cols → u ∈ P := fun u h1 h2 =>
     hKP (hns (Finset.mem_inter.mpr ⟨h1, h2⟩))
+  apply RS.ext
+  · exact Finset.union_comm _ _
+  apply map_joinRows_inner
+  intro s _ r _
+  have hagree : (∀ k ∈ K, s k = mask P r k) ↔ (∀ k ∈ K, s k = r k) := by
+    constructor <;> intro h k hk <;> have := h k hk <;> simpa [hKP hk] using this
+  have hpe : p.eval (merge P s (mask P r)) = p.eval (merge X.cols s r) := by
+    apply p.dep
+    intro u hu
+    have := Finset.mem_union.mp (hp hu)
+    simp only [merge, mask_apply]
+    by_cases h1 : u ∈ P
+    · simp [h1, hP h1]
+    · have h2 : u ∈ F.cols := this.resolve_left h1
+      have h3 : u ∉ X.cols := fun h => h1 (hcx u h h2)
+      simp [h1, h3]
+  simp only [jrow, hagree, hpe]
+  split
+  · simp only [Option.map_some]
+    congr 1
+    funext u
+    simp only [mask_apply, merge, Finset.mem_union]
+    by_cases h1 : u ∈ P
+    · simp [h1, hP h1]
+    · by_cases h2 : u ∈ F.cols
+      · have h3 : u ∉ X.cols := fun h => h1 (hcx u h h2)
+        simp [h1, h2, h3]
+      · simp [h1, h2]
+  · rfl
+
+/-- `join_proj_r` without the blanket no-shadow hypothesis (it is not needed when the projected
+operand drives the outer loop: the fixed operand's values win in the merged row anyway). -/
+theorem join_proj_r_hidden (p : Pred) (K P : TagSet) (X F : RS) :
+    (P ⊆ rcols X ∧ K ⊆ P ∧ K ⊆ rcols F ∧ fv p ⊆ P ∪ rcols F) →
+      proj (P ∪ rcols F) (join p K X F) = join p K (proj P X) F := by
+  rintro ⟨hP, hKP, _, hp⟩
+  simp only [proj, join, rcols, fv] at *
+  congr 1
+  apply map_joinRows_outer
+  intro r _ s _
+  have hagree : (∀ k ∈ K, mask P r k = s k) ↔ (∀ k ∈ K, r k = s k) := by
+    constructor <;> intro h k hk <;> have := h k hk <;> simpa [hKP hk] using this
+  have hpe : p.eval (merge F.cols (mask P r) s) = p.eval (merge F.cols r s) := by
+    apply p.dep
+    intro u hu
+    have := Finset.mem_union.mp (hp hu)
+    simp only [merge, mask_apply]
+    by_cases h2 : u ∈ F.cols
+    · simp [h2]
+    · have h1 : u ∈ P := this.resolve_right h2
+      simp [h1, h2]
+  simp only [jrow, hagree, hpe]
+  split
+  · simp only [Option.map_some]
+    congr 1
+    funext u
+    simp only [mask_apply, merge, Finset.mem_union]
+    by_cases h1 : u ∈ P
+    · simp [h1, hP h1]
+    · by_cases h2 : u ∈ F.cols <;> simp [h1, h2]
+  · rfl
+
+/-- `join_proj_l` with the no-shadow hypothesis weakened to: the columns both operands expose
+survive the projection (only columns *hidden* by the projection matter when the projected operand
+is on the right, where its values win in the merged row). -/
+theorem join_proj_l_hidden (p : Pred) (K P : TagSet) (X F : RS) :
+    (P ⊆ rcols X ∧ K ⊆ P ∧ K ⊆ rcols F ∧ fv p ⊆ P ∪ rcols F ∧ rcols X ∩ rcols F ⊆ P) →
+      proj (P ∪ rcols F) (join p K F X) = join p K F (proj P X) := by
+  rintro ⟨hP, hKP, _, hp, hin⟩
+  simp only [proj, join, rcols, fv] at *
+  have hcx : ∀ u, u ∈ X.cols → u ∈ F.cols → u ∈ P := fun u h1 h2 =>
+    hin (Finset.mem_inter.mpr ⟨h1, h2⟩)
   apply RS.ext
   · exact Finset.union_comm _ _
   apply map_joinRows_inner
